@@ -114,6 +114,7 @@ def c15(ctx: Ctx) -> None:
 def c16(ctx: Ctx) -> None:
     RK.rule_term_kernels(ctx, ["rename", "remove", "copy"])
     RP.rule_rename_variables_chain(ctx)
+    RS.rule_termlist_rename(ctx)
     RA.rule_rename(ctx, RA.GENERIC)
     RA.rule_rename(ctx, RA.POLY)
 
@@ -239,6 +240,7 @@ def c19(ctx: Ctx) -> None:
     RS.rule_hash(ctx)
     RS.rule_hash_order(ctx)
     RS.rule_hash_number_text(ctx)
+    RS.rule_default_simplification(ctx)
     RS.rule_copy(ctx)
     # a copy equals its original only if no kernel leaves a zero coefficient behind (the constructor drops it on copy)
     RK.rule_term_kernels(ctx, ["copy", "rename", "remove", "add", "multiply"])
@@ -246,6 +248,9 @@ def c19(ctx: Ctx) -> None:
 
 def c17(ctx: Ctx) -> None:
     RS.rule_nested_contains(ctx)
+    # contains_behavior of an alternative rests on evaluate / substitute
+    RP.rule_contains_behavior(ctx)
+    RK.rule_term_kernels(ctx, ["evaluate", "substitute"])
     RS.rule_nested_le(ctx)
     RS.rule_nested_intersect(ctx)
     RS.rule_nested_ctor(ctx)
